@@ -56,6 +56,12 @@ func (Engine) Generate(r *core.Rng, property, tier string) *core.Plan {
 	case "C07":
 		g.on["badblock"] = true
 		g.badKinds = []string{"merkle", "dup-tx", "dup-tx", "second-coinbase", "no-coinbase"}
+	case "C15":
+		g.on["fork"], g.on["mempool"], g.on["reorder"] = true, true, true
+		// small bounds evict on nearly every lookup; large ones let entries
+		// live across reorganisations (staleness)
+		p.SetKnob("maxref", []int64{1, 2, 3, 5, 8, 50, 1000, 100000}[r.Intn(8)])
+		p.SetKnob("txcachevol", int64(r.Range(0, 4)))
 	case "C34":
 		g.on["mempool"], g.on["badtx"], g.on["fork"] = true, true, true
 		g.poolHeavy = true
